@@ -12,12 +12,12 @@ import numpy as np
 from common import req, close, relerr, TOL, run_driver
 
 META = {
-    'text': 'Theorems (Lean 4, over the reals) about the definitions regenerated from seawater.py on every run: below 40 C the density IS the EOS-80 rational function of an independently typed coefficient table (all T,S,P); the eight published EOS-80 check values are reproduced to half a unit of the last digit (S=0 exactly, S=35 through a proved bracket of 35^(3/2)); the density increases strictly with pressure on the oceanic box below 40 C; mu, sigma and the cold branch of k are positive on the oceanic range. The real code is compared with the Lean EOS-80 reference executed at Float on every sampled state, with the published check values, and for monotonicity/positivity.',
-    'note': 'Trusted: Lean kernel + 3 standard axioms; translator py2ir/ir2lean (validated every run by executing the generated definitions against seawater.py); real arithmetic as stand-in for IEEE doubles; still open and backed by sampling on the real code only: density increasing in S, everything on the 313-373 K hot-water branch of density, positivity of the hot branch of k, mu decreasing in T.',
+    'text': 'Theorems (Lean 4, over the reals) about the definitions regenerated from seawater.py on every run: below 40 C the density IS the EOS-80 rational function of an independently typed coefficient table (all T,S,P); the eight published EOS-80 check values are reproduced to half a unit of the last digit (S=0 exactly, S=35 through a proved bracket of 35^(3/2)); the density increases strictly with salinity and with pressure on the oceanic box, below 40 C (EOS-80) and on the 313-373 K hot-water branch, and is positive there; mu, sigma, k are positive on the oceanic range; mu decreases strictly with temperature. The real code is compared with the Lean EOS-80 reference executed at Float on every sampled state, with the published check values, and for monotonicity/positivity.',
+    'note': 'Trusted: Lean kernel + 3 standard axioms; translator py2ir/ir2lean (validated every run by executing the generated definitions against seawater.py); real arithmetic as stand-in for IEEE doubles; sigma positivity is proved up to 373.15 K; every analytic claim of the property statement is a theorem (see evidence.theorems), the sampling of the real code is the tie, not the decision.',
     'technique': 'Lean 4 proof over a model regenerated from source by a translator + differential execution against the real code',
 }
 GEN = ['seawater']
-MODULES = ['TamocV.Props.C13', 'TamocV.Gen.SeawaterPy', 'TamocV.Model.EOS80']
+MODULES = ['TamocV.Props.C13Mono', 'TamocV.Props.C13', 'TamocV.Gen.SeawaterPy', 'TamocV.Model.EOS80']
 RULE = ('(T,S,P) drawn from T 271-313.15 K (cold branch) and 313.15-373 K (hot branch), S 0-42, P 1e5-1.1e8 Pa: '
         'uniform + boundary points (branch edge, S=0, P=1 atm) + the 8 published EOS-80 check states; a case is '
         'non-trivial when distinct (rounded to 12 digits) and all of T,S,P differ from the previous case')
@@ -35,7 +35,8 @@ CHECK = [
 
 def audit_files():
     return ['TamocV/Num.lean', 'TamocV/Real.lean', 'TamocV/Model/EOS80.lean', 'TamocV/Props/C13.lean',
-            'TamocV/Lemmas/Basic.lean', 'TamocV/Lemmas/C20.lean', 'TamocV/Lemmas/C13.lean', 'TamocV/Gen/SeawaterPy.lean']
+            'TamocV/Lemmas/Basic.lean', 'TamocV/Lemmas/C20.lean', 'TamocV/Lemmas/C13.lean', 'TamocV/Lemmas/C13Mono.lean',
+            'TamocV/Props/C13Mono.lean', 'TamocV/Gen/SeawaterPy.lean']
 
 
 def gen_cases(ctx):
